@@ -93,6 +93,10 @@ def explore(scn_file, outdir, tag, mode, runs=1000, bound=2, shards=None, extra=
     shards = shards or min(NCPU, 16)
     build_harness()
     jobs = []
+    if mode == "victim":
+        # the bounded tree restricted to preemptions of one thread (each thread in turn): bound 3 stays enumerable
+        mode = "dfs"
+        extra = list(extra or []) + ["--victim", "each"]
     for k in range(shards):
         out = os.path.join(outdir, "%s.%d.api.ndjson" % (tag, k))
         sch = os.path.join(outdir, "%s.%d.sched.ndjson" % (tag, k))
